@@ -91,6 +91,16 @@ func newCreateTable(ct sql.CreateTableStmt) *Schema {
 		WithoutRowid: ct.WithoutRowid,
 	}
 	autoindex := 1
+	// SQLite builds the index of a WITHOUT ROWID `INTEGER PRIMARY KEY` last.
+	// An equal UNIQUE constraint met before that is a real index until then,
+	// so it takes an autoindex number (once).
+	latePK := false
+	lateUnique := func(cols []IndexColumn) {
+		if latePK && sameIndexColumns(st.PK, cols) {
+			latePK = false
+			autoindex++
+		}
+	}
 	for _, c := range ct.Columns {
 		col := TableColumn{
 			Column:  c.Name,
@@ -116,11 +126,16 @@ func newCreateTable(ct sql.CreateTableStmt) *Schema {
 						Collate:   c.Collate,
 						SortOrder: c.PrimaryKeyDir,
 					},
-				}) && !isRowid(false, c.Type, c.PrimaryKeyDir) {
-					// SQLite builds the index of an `INTEGER PRIMARY KEY` of a
-					// WITHOUT ROWID table after all other constraints: it
-					// takes no autoindex number at this position.
-					autoindex++
+				}) {
+					if isRowid(false, c.Type, c.PrimaryKeyDir) {
+						// SQLite builds the index of an `INTEGER PRIMARY KEY`
+						// of a WITHOUT ROWID table after all other
+						// constraints: it takes no autoindex number at this
+						// position.
+						latePK = true
+					} else {
+						autoindex++
+					}
 				}
 			} else {
 				if col.Rowid {
@@ -141,16 +156,18 @@ func newCreateTable(ct sql.CreateTableStmt) *Schema {
 			}
 		}
 		if c.Unique {
+			cols := []IndexColumn{
+				{
+					Column:    c.Name,
+					Collate:   c.Collate,
+					SortOrder: sql.Asc,
+				},
+			}
+			lateUnique(cols)
 			if st.addIndex(
 				false,
 				fmt.Sprintf("sqlite_autoindex_%s_%d", st.Table, autoindex),
-				[]IndexColumn{
-					{
-						Column:    c.Name,
-						Collate:   c.Collate,
-						SortOrder: sql.Asc,
-					},
-				},
+				cols,
 			) {
 				autoindex++
 			}
@@ -193,10 +210,14 @@ constraint:
 					}
 					pkCols = append(pkCols, co)
 				}
-				if !st.setPK(pkCols) && !intPK {
-					// (see the column constraint case: an integer primary
-					// key's index is built last)
-					autoindex++
+				if !st.setPK(pkCols) {
+					if intPK {
+						// (see the column constraint case: an integer
+						// primary key's index is built last)
+						latePK = true
+					} else {
+						autoindex++
+					}
 				}
 				continue
 			}
@@ -205,8 +226,10 @@ constraint:
 				autoindex++
 			}
 		case sql.TableUnique:
+			cols := st.toIndexColumns(c.IndexedColumns)
+			lateUnique(cols)
 			name := fmt.Sprintf("sqlite_autoindex_%s_%d", st.Table, autoindex)
-			if st.addIndex(false, name, st.toIndexColumns(c.IndexedColumns)) {
+			if st.addIndex(false, name, cols) {
 				autoindex++
 			}
 		}
